@@ -180,6 +180,12 @@ CLAIMED.update({'C03': ("Bounded symbolic check of manifest-derived lifetimes: m
          'are the listed open finding (each end mixes its own clock reading into the new key).',
          'KeyManager level only (Node::rotate_session_keys forwards the key, read not encoded); 1-2 ticks per end; HMAC uninterpreted')})
 
+CLAIMED['C36'] = ('Bounded symbolic check of the lock discipline on the key and handshake state of Node: perform_handshake (transport accept thread), session_shared_key (session reader threads), rotate_session_keys (tick, under the node mutex) and session_key (control handlers, under the node mutex) are lifted from the current core/Node.cpp and run on a partial Node with the real KeyManager, KeyExchange and ReputationManager; every access to Node::key_manager_, Node::handshake_state_ and Node::reputation_ (and the heap objects they own) on every symbolic path is logged with the mutexes held, and every pair of roles that can run concurrently and touch the same member, one of them writing, must share a mutex. A pair without one is reported only after ThreadSanitizer, running the same roles as real threads, reported a data race.',
+                  'a SUFFICIENT condition for race freedom on the encoded entry points (lock sets over all symbolic paths), not an exploration of interleavings; the other handlers reached from session threads (handle_announce, handle_request, handle_chunk, ...), SessionManager and main.cpp state are outside the claim')
+
+TECHNIQUE = {'C36': 'symbolic execution of LLVM IR + SMT (z3): lock sets (mutexes held at every access to the watched members) collected over all symbolic paths of each thread role; a missing common mutex is confirmed by running the roles as real threads under ThreadSanitizer',
+             'C10': 'symbolic execution of LLVM IR + SMT (z3 / cvc5 portfolio), counterexamples replayed on a native ASan/UBSan build; the secrecy witness is an existential clause decided by complete bounded exploration and confirmed by native sampling'}
+
 def main():
     props = [json.loads(l) for l in open(os.path.join(ROOT, 'properties.jsonl'))]
     reasons = json.load(open(os.path.join(ROOT, 'not_applicable.json')))
@@ -194,7 +200,7 @@ def main():
                            'replay_cmd_template': 'python3-vt check.py --replay {path}', 'engine': 'S',
                            'level_claimed': {'category': 'model_checking', 'text': text, 'design_ref': 'DESIGN.md section 7 / ' + pid},
                            'level_note': note + '. Trusted base: clang-14 -O1 front end, engine/irparse.py + engine/symex.py + engine/models.py, z3; allocation failure out of scope.',
-                           'technique': 'symbolic execution of LLVM IR + SMT (z3), counterexamples replayed on a native ASan/UBSan build'})
+                           'technique': TECHNIQUE.get(pid, 'symbolic execution of LLVM IR + SMT (z3 / cvc5 portfolio), counterexamples replayed on a native ASan/UBSan build')})
         else:
             na.append({'property_id': pid, 'reason': reasons[pid]})
     m = {'version': 1, 'setup_cmd': 'python3-vt selftest.py',
